@@ -141,7 +141,7 @@ theorem clientsOf_ok (node : String) (cl : List (Option Client)) : ∃ r, client
       simp only [clientsOf, hr]
       exact ⟨_, rfl⟩
 
-/-- Nothing in a report's `NodeStats` when it leaves GetNSQDStats (F25). -/
+/-- Nothing in a report's `NodeStats` when it leaves GetNSQDStats (F54). -/
 def CleanNodes (as : List ChanNode) : Prop := ∀ a ∈ as, a.upNodes = []
 def CleanTs (ts : List TopicNode) : Prop := ∀ t ∈ ts, CleanNodes t.channels
 def CleanAggs (cs : List ChanAgg) : Prop := ∀ c ∈ cs, c.junk = []
@@ -246,7 +246,7 @@ theorem nsqdStats_ok (w : World) (ps : List Producer) (sel selc : String) (incl 
   simp only [h]
   split <;> exact ⟨_, rfl⟩
 
-/-- The per-node reports GetNSQDStats hands to the handlers carry nothing in `NodeStats` (F25). -/
+/-- The per-node reports GetNSQDStats hands to the handlers carry nothing in `NodeStats` (F54). -/
 theorem nsqdStats_clean (w : World) (ps : List Producer) (sel selc : String) (incl : Bool)
     (ts : List TopicNode) (m : ChanMap) (f : Nat)
     (h : nsqdStats Fixes.all w ps sel selc incl = .ok (.got (ts, m) f)) : CleanTs ts := by
